@@ -90,3 +90,21 @@ Print Assumptions C07_directionality_self.
 
 Example C07_nonvacuous : vtrain 0 1 ([0; 1/2; 1], 0, 1) /\ vtrain 0 1 ([], 0, 1).
 Proof. unfold vtrain; cbn [tr_spikes tr_start tr_end fst snd]; repeat split; try lra; valid_tac. Qed.
+
+(* ---- executed instance (Q, extracted to OCaml and run against /repo) = the real-number functions
+   the theorems above are about: kernel-checked parametricity bridge (Bridge.v).  qL = map Q2R etc. ---- *)
+From Coq Require Import QArith Qreals.
+From PS Require Import Bridge.
+Local Close Scope Q_scope.
+Theorem C07_exec_isi_distance_bi_transfer : forall (eps : Q) (cy rc : bool) (m : Q) (iv : option (Q * Q)) (a b : train), rmap Q2R (isi_distance_bi QOps eps cy rc m iv a b) = isi_distance_bi ROps (Q2R eps) cy rc (Q2R m) (qIv iv) (qTrain a) (qTrain b).
+Proof. exact isi_distance_bi_transfer. Qed.
+Print Assumptions C07_exec_isi_distance_bi_transfer.
+Theorem C07_exec_spike_sync_bi_transfer : forall (eps : Q) (cy rc : bool) (mt m : Q) (iv : option (Q * Q)) (a b : train), rmap Q2R (spike_sync_bi QOps eps cy rc mt m iv a b) = spike_sync_bi ROps (Q2R eps) cy rc (Q2R mt) (Q2R m) (qIv iv) (qTrain a) (qTrain b).
+Proof. exact spike_sync_bi_transfer. Qed.
+Print Assumptions C07_exec_spike_sync_bi_transfer.
+Theorem C07_exec_spike_train_order_bi_transfer : forall (eps : Q) (cy rc normalize : bool) (mt m : Q) (a b : train), rmap Q2R (spike_train_order_bi QOps eps cy rc normalize mt m a b) = spike_train_order_bi ROps (Q2R eps) cy rc normalize (Q2R mt) (Q2R m) (qTrain a) (qTrain b).
+Proof. exact spike_train_order_bi_transfer. Qed.
+Print Assumptions C07_exec_spike_train_order_bi_transfer.
+Theorem C07_exec_spike_directionality_transfer : forall (eps : Q) (cy rc normalize : bool) (mt m : Q) (a b : train), rmap Q2R (spike_directionality QOps eps cy rc normalize mt m a b) = spike_directionality ROps (Q2R eps) cy rc normalize (Q2R mt) (Q2R m) (qTrain a) (qTrain b).
+Proof. exact spike_directionality_transfer. Qed.
+Print Assumptions C07_exec_spike_directionality_transfer.
